@@ -18,6 +18,8 @@ def run(run, model):
     run.do(effects.lazy_user_code, model)
     for role, ck in gates.checkers(model).items():
         for kind in ("PRE", "POST"):
+            if not ck.by_kind.get(kind):
+                run.violation("C11.no-drop", "%s:%s" % (ck.fi.qual, kind), "no call in the wrapper evaluates the %s through a helper whose returned error the wrapper raises: whether a violation found there reaches the caller cannot be followed (the evaluation was restructured so that the error passes through code this rule does not see as the evaluation of the live list)" % ("preconditions" if kind == "PRE" else "postconditions"), ck.fi.loc())
             for ev in ck.by_kind.get(kind, []):
                 later = ck.ids(ck.checked_bodies) | {ck.cfg.exit_return.id} if kind == "PRE" else {ck.cfg.exit_return.id}
                 ok, detail, node = ck.gate(ev, later, user_value=True)
